@@ -34,8 +34,8 @@ def _srf(case, seed):
     if case["gen"] == "Fourier":
         return gs.SRF(m, generator="Fourier", period=[9.0, 7.0, 5.0][:d], mode_no=[6, 4, 4][:d], seed=seed)
     if case["gen"] == "IncomprRandMeth":
-        return gs.SRF(m, generator="IncomprRandMeth", mode_no=10, seed=seed)
-    return gs.SRF(m, mode_no=10, seed=seed)
+        return gs.SRF(m, generator="IncomprRandMeth", mode_no=10, seed=seed, sampling=case.get("sampling", "auto"))
+    return gs.SRF(m, mode_no=10, seed=seed, sampling=case.get("sampling", "auto"))
 
 
 PTS = np.array([[0.3, 1.7, 4.1, 6.6, 2.2], [0.9, 2.2, 0.4, 5.3, 3.1], [1.1, 0.2, 3.3, 2.4, 4.0]])
@@ -180,8 +180,10 @@ def run(chk):
     if chk.tier == "quick":
         gens = [g for g in gens if not (g[1] == "Stable" and g[2] == 3)]
     cases = [{"gen": g, "cls": c, "dim": d, "seed": s, "offset": [0.0, 0.0, 0.0]} for (g, c, d) in gens for s in seeds]
+    # forced sampling strategies (inversion through pdf + cdf where no ppf exists: dim 3; mcmc where a ppf exists)
+    cases += [{"gen": g, "cls": c, "dim": d, "seed": s, "offset": [0.0, 0.0, 0.0], "sampling": sm} for g in ("RandMeth", "IncomprRandMeth") for c in ("Gaussian", "Exponential") for d in (2, 3) for sm in ("inversion", "mcmc") for s in seeds[:2] if not (g == "IncomprRandMeth" and d == 1)]
     # projected-coordinate magnitudes (UTM-like): spacing tiny relative to the coordinates
     cases += [{"gen": g, "cls": c, "dim": d, "seed": seeds[-1], "offset": [4.5e5, 5.6e6, 120.0]} for (g, c, d) in gens if g != "Fourier"]
-    chk.run("locality", case_locality, cases, rule="generator x model x dim x seed; per case all 31 non-empty subsets (fresh and same object), all 24 permutations of 4 points, all 30 two-batch splits of the 5-point set, structured vs unstructured vs meshio points/centroids, store names")
+    chk.run("locality", case_locality, cases, rule="generator x model x dim x seed (+ forced sampling strategies inversion / mcmc); per case all 31 non-empty subsets (fresh and same object), all 24 permutations of 4 points, all 30 two-batch splits of the 5-point set, structured vs unstructured vs meshio points/centroids, store names")
     chk.assume("histories up to the depth bound over the stated alphabet; models with a nugget are judged by seed-object independence and harness determinism only (their noise legitimately depends on the stream position), the fresh-object comparison runs on nugget-free models")
     chk.assume("in-place parameter changes smaller than the library's isclose() comparison tolerance (rtol 1e-5, atol 1e-8) are not in the alphabet")
